@@ -596,6 +596,20 @@ class DiGraph(object):
 
                         frontier[runner].add(node)
                         runner = idoms[runner]
+
+        # The head has no immediate dominator: if it has predecessors, it is
+        # in the frontier of every node dominating one of them
+        for predecessor in self.predecessors_iter(head):
+            runner = predecessor
+            if runner != head and runner not in idoms:
+                continue
+            while True:
+                if runner not in frontier:
+                    frontier[runner] = set()
+                frontier[runner].add(head)
+                if runner == head:
+                    break
+                runner = idoms[runner]
         return frontier
 
     def _walk_generic_first(self, head, flag, succ_cb):
